@@ -25,9 +25,10 @@ With --run: runs
     (1) model = code, and the model is never OOF / NOORACLE on a case that has a tree with wfb = true
     (2) wfb(tree) => code = "L" canon(tree)                                      (the theorem's instance)
     (3) not wfb(tree): code vs canon(tree) is classified; a difference is a FINDING (known deviation classes:
-        negated integer in (2^63, 2^64) inside an array/tuple, binary literal >= 2^64, float text that strconv
-        rejects (1e999)); anything else that differs and is not structurally non-literal is reported as FINDING
-        class=other
+        bin-ge-2^64 = binary literal >= 2^64 printed as a string literal, float-text-rejected-by-strconv = a float
+        text that strconv rejects (1e999) printed as a string literal); anything else that differs and is not
+        structurally non-literal is reported as FINDING class=other.  For every case of a FINDING class one
+        machine-readable line `FINDING-KEY <class> <hex source>` is printed besides the human-readable ones.
   Exit status 1 on a failure of (0)-(2); findings do not change the exit status unless --strict (then 2).
 """
 import os
@@ -434,10 +435,7 @@ def tree_class(tree):
     """python classification of the known deviation classes of a tree (for the report only)"""
     words = tree.split(" ")
     cls = set()
-    nested = len(words) > 1
     for w in words:
-        if w[0] == "m" and nested and (1 << 63) < int(w[1:]) < (1 << 64):
-            cls.add("nested-neg-gt-2^63")
         if w[0] == "b" and int(w[1:]) >= (1 << 64):
             cls.add("bin-ge-2^64")
         if w[0] == "f":
@@ -584,6 +582,9 @@ def main():
             if k == "float-text-rejected-by-strconv":
                 spec_txt = "'Float64_<digits>' (strconv.ParseFloat returns a range error: no digits; ClickHouse reads inf)"
             print("   case=%d tree=%s src=%r code=%s %r spec=%s" % (i, tree, unhx(sh), st, unhx(ch), spec_txt))
+        if tag == "FINDING":
+            for (i, tree, sh, st, ch, sp) in lst:
+                print("FINDING-KEY %s %s" % (k, sh))
     if problems:
         print("DISAGREEMENTS: %d" % len(problems))
         for p in problems[:max_report]:
